@@ -41,18 +41,6 @@ theorem T1_leaf_update_is_applyAll (sepf : Nat → Nat → Option Nat) (KB : Nat
   obtain ⟨out, log, e, h1, _, _⟩ := runWorker_spec sepf KB hsep db cs lo hdb hcs hfirst
   exact ⟨out, log, e, h1, by rw [h1]; exact applyAll_sorted hdb.sorted cs⟩
 
-theorem ChOK.keys_lt {KB : Nat} : ∀ {cs : List (Nat × Option (V × Bool))} {lo : Nat}, ChOK KB lo cs →
-    ∀ c ∈ cs, c.1 < KB := by
-  intro cs
-  induction cs with
-  | nil => intro lo _ c hc; simp at hc
-  | cons c cs ih =>
-    intro lo h x hx
-    obtain ⟨k, ch⟩ := c
-    rcases List.mem_cons.1 hx with rfl | hx
-    · exact h.2.1
-    · exact ih h.2.2.2 x hx
-
 /-- **T1.leaf_update_is_kvApply** — with the real `separate` and 256-bit keys: the content of the new leaves, read as
 an association list of the sequential model (`Api/KV.lean`: keys = the 256 key bits, value = the cell with its overflow
 flag), is `kvApply` of the old content with the change list — the specification C01 is stated with. -/
